@@ -29,3 +29,47 @@ Definition res_eqb {A} (eqb : A -> A -> bool) (r1 r2 : res A) : bool :=
   end.
 Definition pair_eqb {A B} (ea : A -> A -> bool) (eb : B -> B -> bool) (p q : A * B) : bool :=
   ea (fst p) (fst q) && eb (snd p) (snd q).
+
+(* ---------------------------------------------------------------------------------------- *)
+(* Z and Qc instances of the shared models, and observation comparison                      *)
+(* ---------------------------------------------------------------------------------------- *)
+From Coq Require Import QArith Qabs Qcanon Arith.
+From PV Require Import Base.Index Base.Sum Np.Array Model.Sparse Model.Repr.
+
+Definition zisz (v : Z) : bool := (v =? 0)%Z.
+Definition zden (T : dense Z) : idx -> Z := den_dense 0%Z T.
+Definition zden_sp (S : sparse Z) : idx -> Z := den_sp 0%Z S.
+Definition zden_k (K : ktensor Z) : idx -> Z := den_k 0%Z 1%Z Z.add Z.mul K.
+Definition zden_t (T : ttensor Z) : idx -> Z := den_t 0%Z 1%Z Z.add Z.mul T.
+Definition ztab (s : shape) (f : idx -> Z) : dense Z := tabulate s f.
+
+Definition dense_eqb (A B : dense Z) : bool := nvec_eqb (dshape A) (dshape B) && vec_eqb (ddata A) (ddata B).
+Definition sp_raw_eqb (A B : sparse Z) : bool :=
+  nvec_eqb (sshape A) (sshape B) && nmat_eqb (ssubs A) (ssubs B) && vec_eqb (svals A) (svals B).
+(* a sparse observation is well-formed and denotes the dense array T *)
+Definition sp_denotes (S : sparse Z) (T : dense Z) : bool :=
+  wf_spb zisz S && nvec_eqb (sshape S) (dshape T) &&
+  forallb (fun k => (zden_sp S (ind2sub (dshape T) k) =? nth k (ddata T) 0)%Z) (seq 0 (size (dshape T))).
+(* any denotation against a dense observation *)
+Definition den_matches (s : shape) (f : idx -> Z) (T : dense Z) : bool :=
+  nvec_eqb s (dshape T) && wf_denseb T && forallb (fun k => (f (ind2sub s k) =? nth k (ddata T) 0)%Z) (seq 0 (size s)).
+
+(* Qc *)
+Definition qisz (v : Qc) : bool := Qc_eq_bool v (Q2Qc 0).
+Definition qadd := Qcplus. Definition qmul := Qcmult.
+Definition q0 : Qc := Q2Qc 0. Definition q1 : Qc := Q2Qc 1.
+Definition qden (T : dense Qc) : idx -> Qc := den_dense q0 T.
+Definition qden_sp (S : sparse Qc) : idx -> Qc := den_sp q0 S.
+Definition qden_k (K : ktensor Qc) : idx -> Qc := den_k q0 q1 Qcplus Qcmult K.
+Definition qden_t (T : ttensor Qc) : idx -> Qc := den_t q0 q1 Qcplus Qcmult T.
+Definition qabs (x : Qc) : Qc := Q2Qc (Qabs x).
+Definition qleb (x y : Qc) : bool := Qle_bool x y.
+Definition qmax (x y : Qc) : Qc := if qleb x y then y else x.
+(* |obs - exact| <= tol * max(1, |exact|) *)
+Definition qclose (tol obs exact : Qc) : bool :=
+  qleb (qabs (obs - exact)) (tol * qmax q1 (qabs exact)).
+Definition tol9 : Qc := Q2Qc (1 # 1000000000).
+Definition tol6 : Qc := Q2Qc (1 # 1000000).
+Definition qvec_close (tol : Qc) (l1 l2 : list Qc) : bool := list_eqb (qclose tol) l1 l2.
+Definition qden_matches (tol : Qc) (s : shape) (f : idx -> Qc) (T : dense Qc) : bool :=
+  nvec_eqb s (dshape T) && wf_denseb T && forallb (fun k => qclose tol (nth k (ddata T) q0) (f (ind2sub s k))) (seq 0 (size s)).
